@@ -272,6 +272,7 @@ def run(prog: Program, rep, tier="quick"):
     r02_4(prog, rep, m, F, fn)
     r02_5(prog, rep, m, F, fn)
     r02_6(prog, rep, m, F)
+    r02_7(prog, rep, m, F, fn)
     rep.floor("R02.1", 18)
     rep.floor("R02.2", 5)
     rep.floor("R02.3", 8)
@@ -520,3 +521,51 @@ def r02_6(prog, rep, m, F):
                            f"chunks and the index dulwich writes disagrees with the pack", sub.lineno)
     if n_sites < 3:
         raise AnalysisError(f"expected >= 3 unused-tail trims in the zlib readers, found {n_sites}")
+
+
+def r02_7(prog, rep, m, F, fn):
+    """Stream reader bookkeeping.  (1) PackStreamReader.read is the EXACT read: what is missing after the buffered bytes comes
+    from read_all (read_some may return fewer bytes: a short object name or trailer), and the amount is `size` minus the
+    buffered length measured BEFORE the buffer is drained.  recv is the at-most read and uses read_some.  (2) per-object CRCs
+    are running values: every crc32 update in a function that carries a running crc32 passes it on."""
+    rep.rule("R02.7", "stream reader: exact reads use read_all with the pre-drain buffer length; crc32 updates always continue the running value")
+    rd = fn("PackStreamReader.read")
+    rv = fn("PackStreamReader.recv")
+    for f, want in ((rd, "self.read_all"), (rv, "self.read_some")):
+        calls = [c for c in ast.walk(f.node) if isinstance(c, ast.Call) and dotted(c.func) == "self._read"]
+        rep.ob("R02.7", PACK, f.qual, f"the underlying read of {f.name}() is {want}", bool(calls) and all(c.args and dotted(c.args[0]) == want for c in calls),
+               f"{[norm(c, 50) for c in calls]}: read_some may return fewer bytes than asked for (socket recv): a 20-byte base name or the "
+               f"trailer comes back short and a valid pack is rejected", f.node.lineno)
+    g = cfg_of(prog, rd)
+    drain = [i for i, n in g.nodes.items() if n.kind == "stmt" and ((isinstance(n.ast, ast.Assign) and dotted(n.ast.targets[0]) == "self._rbuf")
+                                                                    or any(dotted(c.func) == "self._rbuf.read" and not c.args for c in node_calls(n)))]
+    after = reach(g, [b for d in drain for b, l in g.succ[d] if l not in EXC_LABELS], include_srcs=True) if drain else set()
+    late = [i for i in after if any(dotted(c.func) == "self._buf_len" for c in node_calls(g.nodes[i])) and i not in drain]
+    # a drain statement that itself measures the buffer after an earlier drain
+    late += [d for d in drain if d in after and any(dotted(c.func) == "self._buf_len" for c in node_calls(g.nodes[d]))]
+    rep.ob("R02.7", PACK, rd.qual, "the buffered length is measured before the buffer is drained", bool(drain) and not late,
+           "self._buf_len() is evaluated after the buffer was emptied (always 0): the read asks for `size` more bytes instead of the "
+           "missing ones and swallows the beginning of the next field", g.nodes[late[0]].line if late else rd.node.lineno)
+    n = 0
+    for q, f in sorted(m.funcs.items()):
+        upd = [c for c in ast.walk(f.node) if isinstance(c, ast.Call) and dotted(c.func) == "binascii.crc32" and m.enclosing_func(c) is f]
+        if not upd:
+            continue
+        params_ = {a.arg for a in f.node.args.args + f.node.args.kwonlyargs}
+        for c in upd:
+            par = m.parents.get(c)
+            tgt = par.targets[0].id if isinstance(par, ast.Assign) and isinstance(par.targets[0], ast.Name) else None
+            if tgt is None:
+                continue
+            # a running value: the target is also a parameter, or is assigned somewhere else in the function as well
+            others = [x for x in ast.walk(f.node) if isinstance(x, (ast.Assign, ast.AnnAssign)) and x is not par
+                      and any(isinstance(t_, ast.Name) and t_.id == tgt for t_ in ast.walk(x.targets[0] if isinstance(x, ast.Assign) else x.target))]
+            if tgt not in params_ and not others:
+                continue
+            n += 1
+            ok = len(c.args) >= 2 and (tgt is None or (isinstance(c.args[1], ast.Name) and c.args[1].id == tgt))
+            rep.ob("R02.7", PACK, q, f"`{norm(c, 50)}` continues the running crc32", ok,
+                   "the checksum is restarted here: the bytes folded in so far (the object header) are lost and the CRC recorded in the "
+                   "index disagrees with the pack (git verify-pack rejects the index)", c.lineno)
+    if n < 6:
+        raise AnalysisError(f"expected >= 6 running crc32 updates in pack.py, found {n}")
